@@ -61,6 +61,8 @@ class ContractMixin:
         for n, a in zip(names, pos):
             bound[n] = a
         for k, v in kw.items():
+            if k not in c.params and getattr(c, 'any_kwargs', False):
+                continue
             if k not in c.params:
                 self.oblige(st, False, 'type', 'kwarg', node=node,
                             info={'claim': 'unexpected keyword %s for %s (TypeError)' % (k, c.qualname)})
@@ -221,7 +223,7 @@ class ContractMixin:
         for r in c.raises:
             cond = None
             if r.when is not None:
-                cond = self.eval_contract_expr(pre, r.when, env, None, use_env=env)
+                cond = self.eval_contract_expr(pre, r.when, env, None, use_env=env, sink=st)
             s2 = st.copy()
             if cond is not None:
                 s2.assume(z3.And([cond] + [z3.Not(p) for p in prior]))
@@ -272,7 +274,7 @@ class ContractMixin:
             # either the path was already dead or the contract is contradictory; tell them apart
             if self.feasible(pre):
                 raise OutsideSubset('postcondition of %s is contradictory at this call' % c.qualname)
-        if self_sv is not None and (c.modifies or c.qualname.endswith('.__init__')) and not c.assumed \
+        if self_sv is not None and (c.modifies or c.qualname.endswith('.__init__')) \
                 and self.spec_depth == 0 and not self.in_contract:
             # the callee re-establishes the class invariants of its receiver on normal return
             # (obligation `post:invariant:*` of the callee's own verification)
